@@ -3,6 +3,7 @@ C17 — helper lemmas: the index-by-index inner loops of the two kernels compute
 (dot product with the lag buffer, buffer shifted by one lag), for every order `p`.
 -/
 import HydroVerif.Model.C17
+import HydroVerif.Model.C17Spec
 import Mathlib.Algebra.BigOperators.Fin
 import Mathlib.Algebra.BigOperators.Intervals
 import Mathlib.Tactic.Ring
@@ -198,10 +199,7 @@ theorem predLoop_full (ps buf : Vector α p) : predLoop ps buf p (Nat.le_refl p)
 
 /-! ### the series loops, one step at a time -/
 
-/-- a missing innovation reads as zero -/
-def zeroNaN : Option α → α
-  | none => 0
-  | some x => x
+/-! `zeroNaN` (a missing innovation reads as zero), `past` and `glag` live in `Model/C17Spec.lean` (executable). -/
 
 @[simp] theorem zeroNaN_none : zeroNaN (none : Option α) = 0 := rfl
 @[simp] theorem zeroNaN_some (x : α) : zeroNaN (some x) = x := rfl
@@ -355,11 +353,6 @@ theorem simBuf_resRun (ps : Vector α p) (m : α) : ∀ (xs : List (Option α)) 
 
 
 /-! ### the AR recursion -/
-
-/-- centred value `k+1` steps before step `t` in a run started from the buffer `b0`:
-an earlier output minus the mean, or what the initial buffer held for that lag -/
-def glag (ys : List α) (b0 : Vector α p) (m : α) (t k : Nat) (hk : k < p) : α :=
-  if k < t then ys.getD (t - 1 - k) 0 - m else b0[k - t]'(by omega)
 
 theorem glag_cons (tmp m : α) (ys : List α) (buf : Vector α p) (t k : Nat) (hk : k < p) :
     glag ((tmp + m) :: ys) buf m (t + 1) k hk = glag ys (shift tmp buf) m t k hk := by
@@ -638,11 +631,6 @@ theorem simRun_zeroed (nan : α → Bool) (ps : Vector α p) (m : α) :
 omit [CommRing α] in
 theorem toVec_getElem (ps : List α) (k : Nat) (hk : k < ps.length) : (toVec ps)[k] = ps[k] := by
   simp [toVec]
-
-/-- the value `k+1` steps before step `t` of the output series `ys`: an earlier output, or the initial
-value before the start of the series (`y[t-(k+1)]` with `y[-j] = ini`) -/
-def past (ys : List α) (ini : α) (t k : Nat) : α :=
-  if h : k < t ∧ t - 1 - k < ys.length then ys[t - 1 - k] else ini
 
 theorem glag_replicate (ys : List α) (ini m : α) (t k : Nat) (hk : k < p) (ht : t ≤ ys.length) :
     glag ys (Vector.replicate p (ini - m)) m t k hk = past ys ini t k - m := by
